@@ -102,6 +102,10 @@ def ensure_facts(config, repo=REPO, target_dir=None):
     base = os.path.join(WORK, "facts", th, config)
     marker = os.path.join(base, ".complete")
     if os.path.exists(marker):
+        try:
+            os.utime(os.path.dirname(base))     # "recently used": keeps a concurrent run's _prune away from it
+        except OSError:
+            pass
         return base, th, False
     os.makedirs(os.path.join(WORK, "facts"), exist_ok=True)
     lock = open(os.path.join(WORK, "facts", ".lock"), "w")
@@ -134,13 +138,19 @@ def _prune(keep, n=12):
 
 
 def load(config, repo=REPO, target_dir=None):
-    base, th, fresh = ensure_facts(config, repo, target_dir)
-    crates = {}
-    for f in sorted(os.listdir(base)):
-        if f.endswith(".json"):
-            with open(os.path.join(base, f)) as fh:
-                crates[f[:-5]] = json.load(fh)
-    return crates, th, fresh
+    for attempt in (0, 1):
+        base, th, fresh = ensure_facts(config, repo, target_dir)
+        crates = {}
+        try:
+            for f in sorted(os.listdir(base)):
+                if f.endswith(".json"):
+                    with open(os.path.join(base, f)) as fh:
+                        crates[f[:-5]] = json.load(fh)
+            return crates, th, fresh
+        except FileNotFoundError:
+            # the cached fact base was pruned by a concurrent run between the marker test and the read: extract again
+            if attempt:
+                raise
 
 
 if __name__ == "__main__":
